@@ -99,11 +99,11 @@ structure HObs where
   l : String
   g : String
 
-def HObs.render (o : HObs) : String := s!"{o.head}|{showAttrs o.attrs}|L={o.l}|G={o.g}"
+def HObs.render (o : HObs) : String := s!"{o.head}|{showAttrs o.attrs}|L={o.l}|G={o.g}|V=ok"
 
 def parseObs (tok : String) : Option HObs :=
   match tok.splitOn "|" with
-  | [h, as, l, g] => do
+  | [h, as, l, g, _] => do
     let as ← parseAttrList as
     pure ⟨h, as, (l.drop 2).toString, (g.drop 2).toString⟩
   | _ => none
@@ -179,7 +179,9 @@ def helperCase (pid : String) (args : List String) (impl : String) : Verdict :=
             run as rest itoks.tail ((HObs.render ⟨"lookup", as, l, g⟩) :: acc)
           | .wire =>
             -- Encode (code 1: authenticator verbatim) → Parse
-            (match marshal ⟨1, 0, auth, secret, as⟩ with
+            -- code 1 keeps the authenticator; a salt-encrypted attribute travels in a reply (code 2), whose
+            -- authenticator field is then the response hash: irrelevant here, the getters use the request's
+            (match (if d.encrypt == 2 then encode md5 ⟨2, 0, auth, secret, as⟩ else marshal ⟨1, 0, auth, secret, as⟩) with
              | .ok w =>
                (match parse w secret with
                 | .ok p => let (l, g) := reads d p.attrs secret auth
@@ -200,7 +202,8 @@ def helperCase (pid : String) (args : List String) (impl : String) : Verdict :=
              | .wire => if tok == "wire=err" then laws prev rest toks (i + 1) else [(s!"step{i}_obs_wellformed", false)]
              | _ => [(s!"step{i}_obs_wellformed", false)])
           | some cur =>
-            let here : List (String × Bool) :=
+            let variantsOk := tok.endsWith "|V=ok"
+            let here : List (String × Bool) := [("get_and_string_variants_agree_with_lookup_and_gets", variantsOk)] ++
               match o with
               | .add _ tag v | .set _ tag v =>
                 let isSet := match o with | .set .. => true | _ => false
